@@ -244,6 +244,20 @@ def e4(run: Run, prog: Program):
             h = _es.methods.get(name)
             return h.node if h is not None and name.startswith("_") else None
         node = inline_helpers(m.node, resolve)
+        # values produced by local closures or by run-time dispatch
+        # (`getattr(cls, name)(...)`) are not followed by the exchange analysis:
+        # no verdict for such a function
+        opaque = [x for x in ast.walk(node) if x is not node and (
+            isinstance(x, (ast.FunctionDef, ast.Lambda)) or (
+                isinstance(x, ast.Call) and isinstance(x.func, ast.Name) and
+                x.func.id == "getattr"))]
+        if opaque:
+            run.unknowns.append(
+                f"E4: EventSeries.{mname} computes values through "
+                f"{'a local closure' if not isinstance(opaque[0], ast.Call) else 'getattr dispatch'}"
+                f" (line {getattr(opaque[0], 'lineno', '?')}); exchange consistency "
+                f"not decided")
+            continue
         ex = Exchange(node, seeds, symmetric=tuple(assumed)).run()
         n += len(ex.assigns)
         for a, why in assumed.items():
